@@ -168,6 +168,28 @@ def src_of(case):
     return s['tree'], True
 
 
+def procstate():
+    """process-level state a compilation could leave changed: interpreter settings and every module-level / class-level attribute of
+    the package (plain introspection, no hook)"""
+    import decimal, threading, types, warnings
+    st = {'sys.recursionlimit': sys.getrecursionlimit(), 'os.cwd': os.getcwd(), 'os.environ': repr(sorted(os.environ.items())),
+          'decimal.context': repr(decimal.getcontext()), 'sys.int_max_str_digits': sys.get_int_max_str_digits(),
+          'warnings.filters': len(warnings.filters), 'threads': threading.active_count(), 'sys.path': repr(sys.path),
+          'sys.switchinterval': sys.getswitchinterval(), 'os.umask': None}
+    for name, mod in sorted(sys.modules.items()):
+        if not name.startswith('ducklingscript') or mod is None: continue
+        for k, v in list(vars(mod).items()):
+            if k.startswith('__'): continue
+            if isinstance(v, type):
+                if v.__module__ != name: continue
+                for a, av in list(vars(v).items()):
+                    if (a.startswith('__') and a.endswith('__')) or callable(av) or isinstance(av, (staticmethod, classmethod, property)): continue
+                    st[f'{name}.{k}.{a}'] = repr(av)[:400]
+            elif not callable(v) and not isinstance(v, types.ModuleType):
+                st[f'{name}.{k}'] = repr(v)[:400]
+    return st
+
+
 def run_compile(case, root: Path, compiler=None):
     d = ds()
     op = case.get('op', 'compile')
@@ -263,6 +285,7 @@ def run_case_inner(case, root: Path):
         # a sequence of compilations in this process; results of all steps
         comps = {}
         res = []
+        ps0 = procstate()
         for step in case['steps']:
             key = step.get('compiler')
             sroot = root / step.get('dir', '.')
@@ -280,7 +303,9 @@ def run_case_inner(case, root: Path):
                 raise
             except Exception as ex:
                 res.append(dict(kind='crash', exc=type(ex).__name__, where=innermost_frame(ex), msg=str(ex)[:200]))
-        return dict(kind='history', results=res)
+        ps1 = procstate()
+        diff = sorted(k for k in set(ps0) | set(ps1) if ps0.get(k) != ps1.get(k))
+        return dict(kind='history', results=res, procDiff=[f'{k}: {ps0.get(k, "<absent>")} -> {ps1.get(k, "<absent>")}'[:300] for k in diff])
     if op == 'cli':
         return run_cli(case, root)
     raise ValueError('unknown op ' + str(op))
